@@ -62,7 +62,7 @@ def with_extra_labels(inp):
     return dict(K, labels=labels)
 
 
-def check_fair_states(inp):
+def check_fair_states(inp, kripke=None):
     """get_fair_states(F) = states from which some path visits every P infinitely often."""
     K = with_extra_labels(inp)
     F = norm_F(K, inp['F'])
@@ -70,7 +70,8 @@ def check_fair_states(inp):
     M = ref.Model(K)
     masks = masks_of(K, F)
     truth = ref.exists(M, ('set', M.full), masks)
-    kripke = km.to_lib(K, naming, how)
+    if kripke is None:
+        kripke = km.to_lib(K, naming, how)
     before = km.snapshot(kripke)
     try:
         obs = observe_fair(kripke, K, F, naming, inp.get('fshape', 'list-set'))
@@ -97,7 +98,7 @@ def truths(M, top, masks):
     return out
 
 
-def check_mc(inp):
+def check_mc(inp, kripke=None):
     """modelcheck(K, f, F=F) interprets A/E over fair paths and atoms as 'p and fair'."""
     K = with_extra_labels(inp)
     checker = inp['checker']
@@ -106,7 +107,8 @@ def check_mc(inp):
     f = fm.from_json(inp['f'])
     top = ('A', f) if checker == 'LTL' else f
     M = ref.Model(K)
-    kripke = km.to_lib(K, naming, how)
+    if kripke is None:
+        kripke = km.to_lib(K, naming, how)
     before = km.snapshot(kripke)
     fshape = inp.get('fshape', 'list-set')
     out = mc.call(checker, K, top, naming, how, form=inp.get('form', 'obj'), F=F, kripke=kripke, fshape=fshape)
@@ -160,7 +162,42 @@ def check_mc(inp):
                    '%s.modelcheck with F=%s; not the pinned (known) behaviour either' % (checker, F))
 
 
-CHECKS = {'fair_states': check_fair_states, 'mc': check_mc}
+def check_history(inp):
+    """One Kripke OBJECT asked several times, the caller adding transitions (add_edge between its
+    states) in between: every answer is judged, by the two checks above, against the structure as it
+    is at that moment.  steps: ['ask', F] | ['edge', a, b] | ['mc', checker, f, F]."""
+    K = dict(inp['K'])
+    naming, how = inp.get('naming', 'int'), inp.get('how', 0)
+    nm = graphs.NAMINGS[naming]
+    kripke = km.to_lib(K, naming, how)
+    known = None
+    for k, step in enumerate(inp['steps']):
+        if step[0] == 'edge':
+            a, b = step[1] % K['n'], step[2] % K['n']
+            if [a, b] in K['edges']:
+                continue
+            try:
+                kripke.add_edge(nm(a), nm(b))
+            except Exception as e:
+                return Failure('history', inp, 'add_edge(%r, %r) succeeds' % (nm(a), nm(b)),
+                               'raised %s: %s' % (type(e).__name__, e))
+            K = dict(K, edges=sorted(K['edges'] + [[a, b]]))
+            continue
+        if step[0] == 'ask':
+            sub = {'K': K, 'F': step[1], 'naming': naming, 'how': how}
+            r = check_fair_states(sub, kripke)
+        else:
+            sub = {'K': K, 'checker': step[1], 'f': step[2], 'F': step[3], 'naming': naming, 'how': how}
+            r = check_mc(sub, kripke)
+        if isinstance(r, Failure):
+            return Failure('history', inp, r.expected, r.actual, 'step %d %r on the structure %r: %s' % (
+                k, step, K['edges'], r.note))
+        if isinstance(r, Known) and known is None:
+            known = r
+    return known
+
+
+CHECKS = {'fair_states': check_fair_states, 'mc': check_mc, 'history': check_history}
 
 
 def replay(ctx, rec):
@@ -332,11 +369,91 @@ def random_shard(st, shard, nshards, payload):
         st.failure = f
 
 
+def history_shard(st, shard, nshards, payload):
+    """Systematic: K in scope; ask F, add one transition, ask again (and once more through a checker)."""
+    idx = -1
+    for n in payload['ns']:
+        Fs = F_lists(n, 2)
+        for K in km.scope(n):
+            idx += 1
+            if idx % nshards != shard:
+                continue
+            if (idx // nshards) % payload['k_stride']:
+                continue
+            missing = [[a, b] for a in range(n) for b in range(n) if [a, b] not in K['edges']]
+            for ei, e in enumerate(missing):
+                for fi, F in enumerate(Fs):
+                    if (fi + ei + idx) % payload['F_stride']:
+                        continue
+                    F2 = Fs[(fi * 7 + ei) % len(Fs)]
+                    steps = [['ask', F], ['edge', e[0], e[1]], ['ask', F], ['ask', F2]]
+                    if (fi + idx) % 3 == 0:
+                        steps.append(['mc', ('CTL', 'LTL', 'CTLS')[(fi + ei) % 3],
+                                      [('E', ('G', fm.P)), ('G', ('F', fm.P)), ('E', ('G', ('F', fm.Q)))][(fi + ei) % 3], F])
+                    inp = {'K': K, 'naming': ('int', 'str', 'tuple')[idx % 3], 'how': idx % 6, 'steps': steps}
+                    st.evaluations += 1
+                    M2 = ref.Model(dict(K, edges=sorted(K['edges'] + [e])))
+                    M1 = ref.Model(K)
+                    m1, m2 = masks_of(K, F), masks_of(K, F)
+                    grew = ref.exists(M1, ('set', M1.full), m1) != ref.exists(M2, ('set', M2.full), m2)
+                    st.bump('history: the new transition %s the fair states' % ('changes' if grew else 'keeps'))
+                    if grew:
+                        st.nontrivial += 1
+                        if (fi + idx) % 41 == 0:
+                            st.sample(inp, cls='history-n%d' % n)
+                    f = handle(st, check_history(inp), inp, 'history')
+                    if f is not None:
+                        if st.failure is None:
+                            st.failure = f
+                        return
+
+
+def history_random_shard(st, shard, nshards, payload):
+    from hypothesis import strategies as hs
+
+    @hs.composite
+    def cases(draw):
+        K = draw(km.st_kripke(2, 6))
+        n = K['n']
+        Fst = hs.lists(hs.lists(hs.integers(0, n - 1), max_size=n, unique=True), min_size=0, max_size=3)
+        steps = []
+        for _ in range(draw(hs.integers(2, 8))):
+            kind = draw(hs.sampled_from(['ask', 'ask', 'edge', 'edge', 'mc']))
+            if kind == 'ask':
+                steps.append(['ask', draw(Fst)])
+            elif kind == 'edge':
+                steps.append(['edge', draw(hs.integers(0, n - 1)), draw(hs.integers(0, n - 1))])
+            else:
+                c = draw(hs.sampled_from(['CTL', 'LTL', 'CTLS']))
+                f = draw({'CTL': fm.st_formula('ctl', max_depth=2),
+                          'LTL': fm.st_formula('ltl_path', max_depth=2, max_temporal=2),
+                          'CTLS': fm.st_formula('ctls_state', max_depth=2, max_temporal=2)}[c])
+                steps.append(['mc', c, f, draw(Fst)])
+        steps.append(['ask', draw(Fst)])
+        return {'K': K, 'naming': draw(hs.sampled_from(['int', 'str', 'tuple', 'mixed'])),
+                'how': draw(hs.integers(0, 5)), 'steps': steps}
+
+    def body(inp):
+        asks = [i for i, s_ in enumerate(inp['steps']) if s_[0] != 'edge']
+        edges = [i for i, s_ in enumerate(inp['steps']) if s_[0] == 'edge']
+        nt = bool(edges) and bool(asks) and asks[0] < edges[-1] < asks[-1]
+        st.random_case(inp, nt)
+        st.bump('random history: %s' % ('asked before and after an edit' if nt else 'no edit between questions'))
+        if nt:
+            st.sample(inp, cls='random-history')
+        return handle(st, check_history(inp), inp, 'history')
+
+    f = core.hyp_run(payload['seed'] * 1000 + 700 + shard, cases(), body, payload['n'])
+    if f is not None:
+        st.failure = f
+
+
 def run(ctx):
     ctx.rule = ('K in S(1)+S(2) (strided in the quick tier), random <= 4 states under four state '
                 'namings (random tier: <= 6 states for CTL and get_fair_states, F of up to 4 sets given as list/tuple of '
                 'set/frozenset and checked to be left unmodified, K optionally carrying labels named fair/fair0/.., the '
-                'same structure object re-asked after a call with another F); F = every list of <= 2 subsets of the states (incl. [], [S], [{}]) for '
+                'same structure object re-asked after a call with another F; HISTORIES: one structure object asked by get_fair_states / the checkers '
+                'before and after the caller adds transitions with add_edge); F = every list of <= 2 subsets of the states (incl. [], [S], [{}]) for '
                 'get_fair_states, a stride of them plus F=None for the checkers; formulas: CTL with '
                 '<= 1 operator, LTL A g and CTL* Q g with g <= 1 operator plus nested-quantifier '
                 'formulas; random formulas depth <= 3.  PRIMARY ORACLE: R-STAR with one extra Buchi '
@@ -387,6 +504,20 @@ def run(ctx):
     if f is None:
         shards, n = ctx.pick((16, 60), (16, 900))
         f = core.run_sharded(ctx, random_shard, {'seed': ctx.seed, 'n': n}, nshards=shards)
+    if f is None:
+        # histories: the same Kripke object asked again after the caller added a transition
+        hp = {'ns': [1, 2, 3], 'k_stride': 1 if ctx.thorough else 5, 'F_stride': 1 if ctx.thorough else 3}
+        if ctx.thorough:
+            hp3 = dict(hp, ns=[3], k_stride=47, F_stride=3)
+        ctx.scopes.append('histories: K in S(1)+S(2)%s, every missing transition added between two get_fair_states calls (+ a checker call)'
+                          % (' (every 5th K, every 3rd F)' if not ctx.thorough else ''))
+        hp['ns'] = [1, 2]
+        f = core.run_sharded(ctx, history_shard, hp)
+        if f is None and ctx.thorough:
+            f = core.run_sharded(ctx, history_shard, hp3)
+        if f is None:
+            shards, n = ctx.pick((16, 40), (16, 600))
+            f = core.run_sharded(ctx, history_random_shard, {'seed': ctx.seed, 'n': n}, nshards=shards)
     if f is not None:
         ctx.violation(f)
         return
